@@ -7,7 +7,9 @@ LEVEL = 'exploration'
 RULE = 'pool recovery'
 ASSUMPTIONS = []
 BOUNDS = {'quick': 'n/a', 'thorough': 'n/a'}
-FLAG = '/dev/shm/verif-poolprobe-%d' % os.getppid()
+import tempfile
+FLAGDIR = '/dev/shm' if os.path.isdir('/dev/shm') and os.access('/dev/shm', os.W_OK) else tempfile.gettempdir()
+FLAG = os.path.join(FLAGDIR, 'verif-poolprobe-%d' % os.getppid())
 
 
 def cases(tier):
